@@ -17,4 +17,9 @@ CHECKS = {
   "text": "Generated positive series (2..400 points, seven shape classes including 'largest absolute != largest relative decline' and never-falling) x interval x benchmark are compared with brute-force definitions of drawdown, returns in all input forms, volatility, Sharpe, alpha/beta, and with performance_metrics. Sampled exploration; float tolerance stated in the evidence.",
   "note": "Trusts Python float arithmetic and math.fsum for the definitions; tolerance widened by the conditioning of x**(365/days).",
  },
+ "C18": {
+  "technique": "Hypothesis generated (bar grid x trigger specifications) run through the real Actuator loop, compared with a brute-force set denotation; retirement checked per bar",
+  "text": "Every trigger kind with generated parameters (on, beside and outside the grid; duplicates; overlapping/empty ranges; delays; immediate; coinciding periods; late registration; kwargs) is executed by Actuator.run over grids with interval 1/2/5/15/60 min and 1..300 bars; firing sets, once-per-bar, kwargs and retirement are compared with an independent denotation. Sampled exploration of an unbounded parameter space.",
+  "note": "Denotation of Period(s) triggers is defined for periods/delays that are multiples of the bar interval; trusts the integer bar-grid computation (also checked against the visited bars).",
+ },
 }
